@@ -73,6 +73,7 @@ PROPS = {
                      'negative cost coefficients are left to C03 (finding D6)'],
     ),
     'C18': dict(
+        theorem_files=['C18', 'GoTypes'],
         judge='C18', judge_module='Judge.J13', judge_fn='judge_C18',
         cases=dict(quick=3000, thorough=60000),
         rule='the C03 problem generator (CNF, cardinality, PB through the constructors and through OPB texts, with and without cost '
@@ -84,6 +85,7 @@ PROPS = {
         assumptions=['variables that the simplification removed entirely do not appear in the OPB rendering: compared as free variables'],
     ),
     'C19': dict(
+        theorem_files=['C19', 'GoTypes'],
         parts=[dict(harness='C19', judge='C19', cases=dict(quick=900, thorough=9000), judge_module='Judge.J19', judge_fn='judge_C19',
                     extra_args=['-cli', '{BUILD}/gophersat', '-clidir', '{WORK}'])],
         rule='the executable built from /repo is run on generated files: .cnf (mixed / 3-SAT / unit-rich / binary-rich / pigeonhole, '
@@ -165,6 +167,7 @@ PROPS = {
                      'with unit-propagation pruning up to 26 exported variables and reported as undecided drift beyond'],
     ),
     'C06': dict(
+        theorem_files=['C06', 'GoTypes'],
         judge='C06', judge_module='Judge.J06', judge_fn='judge_C06',
         cases=dict(quick=3000, thorough=60000),
         rule='conflict-rich CNF with certificate generation on (channel) x learned-clause limit default/4/20: 3-SAT near the '
@@ -199,6 +202,7 @@ PROPS = {
         assumptions=[],
     ),
     'C14': dict(
+        theorem_files=['C14', 'Judges'],
         parts=[dict(harness='C14', judge='C14', cases=dict(quick=6000, thorough=50000), judge_module='Judge.J14', judge_fn='judge_C14'),
                dict(harness='C14opt', judge='C03', cases=dict(quick=3000, thorough=30000))],
         rule='part 1: problems (CNF, 3-SAT, cardinality, PB, pigeonhole as clauses and as cardinality constraints, binary-rich CNF '
@@ -222,6 +226,7 @@ PROPS = {
         assumptions=[],
     ),
     'C09': dict(
+        theorem_files=['C09', 'Judges'],
         judge='C09', judge_module='Judge.J09', judge_fn='judge_C09',
         cases=dict(quick=6000, thorough=60000),
         rule='base problems (CNF, unit-rich, 3-SAT, cardinality, PB; 2..8 variables quick, 2..12 thorough) x histories of 1..8 '
@@ -233,6 +238,7 @@ PROPS = {
                      'added cardinality/PB constraints mention each variable once'],
     ),
     'C10': dict(
+        theorem_files=['C10', 'Judges'],
         judge='C10', judge_module='Judge.J09', judge_fn='judge_C10',
         cases=dict(quick=6000, thorough=60000),
         rule='base CNF problems (mixed, unit-rich, 3-SAT; 2..9 variables quick, 2..14 thorough) x 1..6 rounds of Assume+Solve; '
@@ -242,6 +248,7 @@ PROPS = {
         assumptions=['assumed literals are over variables of the problem'],
     ),
     'C01': dict(
+        theorem_files=['C01', 'C01s', 'GoTypes', 'Judges'],
         judge='solve', judge_module='Judge.J01', judge_fn='judge_solve_case',
         cases=dict(quick=10000, thorough=60000),
         exhaustive=dict(quick=True, thorough=True),
@@ -254,7 +261,7 @@ PROPS = {
         assumptions=['termination and absence of panics are observed per run (10 s limit per case), not proved'],
     ),
     'C02': dict(
-        theorem_files=['C02', 'C02b'],
+        theorem_files=['C02', 'C02b', 'C02s'],
         judge='solve', judge_module='Judge.J01', judge_fn='judge_solve_case',
         cases=dict(quick=8000, thorough=80000),
         rule='random sets of 1..n+3 cardinality / PB constraints over 1..10 (quick) or 1..16 (thorough) variables built through '
@@ -266,6 +273,7 @@ PROPS = {
                      'Go int overflow is not modelled (coefficients are small)'],
     ),
     'C03': dict(
+        theorem_files=['C03', 'Judges'],
         judge='C03', judge_module='Judge.J03', judge_fn='judge_C03',
         cases=dict(quick=8000, thorough=80000),
         rule='random problems (CNF, long clauses, 3-SAT, cardinality, PB; 2..9 variables quick, 2..13 thorough) x cost function '
@@ -278,6 +286,7 @@ PROPS = {
         assumptions=['cost literals are over distinct variables (as the property states)'],
     ),
     'C04': dict(
+        theorem_files=['C04', 'Judges'],
         judge='C04', judge_module='Judge.J04', judge_fn='judge_C04',
         cases=dict(quick=6000, thorough=60000),
         rule='random weighted partial MaxSAT instances over 1..7 (quick) / 1..10 (thorough) names, 1..n+4 constraints, each hard '
@@ -290,6 +299,7 @@ PROPS = {
         assumptions=['soft weights >= 1 (as the property states)'],
     ),
     'C05': dict(
+        theorem_files=['C05', 'Judges'],
         judge='C05', judge_module='Judge.J05', judge_fn='judge_C05',
         cases=dict(quick=3000, thorough=40000),
         rule='cases = fixed empty problems (n=0..6, four front ends) then random CNF / long-clause / unit-rich / '
